@@ -66,6 +66,12 @@ M = {
  "c11-no-strict": ("actions/message-streamer.go", "MaxBytesStrict: anyPending,", "MaxBytesStrict: anyPending && false,"),
  "c11-nack-keeps-pending": ("actions/message-streamer.go", "\t\t\t\tfor _, id := range msg.Nack {\n\t\t\t\t\tdelete(pending, id)\n\t\t\t\t}\n", ""),
  "c11-no-refresh-wake": ("actions/message-streamer.go", "\t\t\tif removedPending {", "\t\t\tif removedPending && false {"),
+ "c19-3xx-success": ("actions/http-push-streamer.go", "case http.StatusProcessing, http.StatusOK,", "case http.StatusProcessing, http.StatusOK, http.StatusNotModified, http.StatusMovedPermanently,"),
+ "c19-ack-on-error": ("actions/http-push-streamer.go", "\t\t\toutcome, httpStatus = \"error\", \"xxx\"\n\t\t\tq = c.nackQueue", "\t\t\toutcome, httpStatus = \"error\", \"xxx\""),
+ "c19-drop-orderingkey": ("actions/http-push-streamer.go", "\tif del.OrderKey != nil {\n\t\tbodyObject.Message.OrderingKey = *del.OrderKey\n\t}", "\tif del.OrderKey != nil && false {\n\t\tbodyObject.Message.OrderingKey = *del.OrderKey\n\t}"),
+ "c19-no-base64": ("actions/http-push-streamer.go", "payload64 := base64.StdEncoding.EncodeToString(del.Payload)", "payload64 := string(del.Payload); _ = base64.StdEncoding"),
+ "c19-window-1000": ("actions/http-push-streamer.go", "\t\tmaxMessages:      1,", "\t\tmaxMessages:      1000,"),
+ "c19-204-nack": ("actions/http-push-streamer.go", "http.StatusAccepted, http.StatusNoContent:", "http.StatusAccepted:"),
 }
 def main():
     name, checks = sys.argv[1], sys.argv[2].split(",")
